@@ -175,6 +175,7 @@ def check(case, rec):
                 with open(path + '_index', 'wb') as f:
                     f.write(index)
             _histories(rec, acct, TdmsFile, path, data, ex, d, valid)
+            _index_stream_histories(rec, acct, TdmsFile, index, d)
             read_raised = acct.raised
             _writer_histories(rec, acct, TdmsFile, TdmsWriter, RootObject, ChannelObject, path, d, case)
             rec.nontrivial(read_raised > 0 or idx_kind != 'none')
@@ -306,6 +307,35 @@ def _histories(rec, acct, TdmsFile, path, data, ex, d, valid):
             fobj.close()
         if bio.closed:
             rec.violation('caller_stream_closed', 'the caller\'s BytesIO was closed by the library')
+
+
+def _index_stream_histories(rec, acct, TdmsFile, index, d):
+    """the caller hands in an open stream holding .tdms_index content: it must never be closed by the library"""
+    ipath = os.path.join(d, 'caller.tdms_index')
+    with open(ipath, 'wb') as f:
+        f.write(index)
+    for sname in ('index_bytesio', 'index_fileobj'):
+        for api in ('read', 'read_metadata', 'open'):
+            stream = io.BytesIO(index) if sname == 'index_bytesio' else open(ipath, 'rb')
+            before = open_fds(d)
+            tf = None
+            try:
+                tf = getattr(TdmsFile, api)(stream)
+            except Exception:       # noqa  faulty index content may be rejected
+                acct.raised += 1
+            if tf is not None:
+                try:
+                    tf.close()
+                    tf.close()
+                except Exception as e:      # noqa
+                    rec.violation('close_repeat:raised', describe_exc(e), key=exc_key(e))
+            if stream.closed:
+                rec.violation('caller_stream_closed', '%s(<caller stream with index file content, %s>) closed the caller\'s stream' % (
+                    api, sname))
+            else:
+                stream.close()
+            acct.expect_clean(before, 'index_stream:' + api, '%s(%s)' % (api, sname))
+            del tf
 
 
 def _writer_histories(rec, acct, TdmsFile, TdmsWriter, RootObject, ChannelObject, path, d, case):
